@@ -2,6 +2,7 @@ package main
 
 import (
 	"fmt"
+	"runtime"
 	"go/constant"
 	"go/token"
 	"go/types"
@@ -124,9 +125,15 @@ func (ex *Exec) verifyCase(fn *ssa.Function, key string, ctr *Contract, cs *Case
 	}
 	if ctr != nil {
 		fr.props = ctr.Props
+	} else {
+		fr.props = []string{"C06"} // implicit safety obligations of functions without a contract
 	}
 	fr.analyzeLoops()
 	fr.numberInstrs()
+	// names are per function: reset the name-keyed tables
+	ex.lazyObjs = map[string]*Obj{}
+	ex.varFacts = map[string]*Term{}
+	ex.globals = map[*ssa.Global]*Obj{}
 	prev := ex.curFn
 	ex.curFn = fr
 	defer func() { ex.curFn = prev }()
@@ -136,7 +143,8 @@ func (ex *Exec) verifyCase(fn *ssa.Function, key string, ctr *Contract, cs *Case
 				err = fmt.Errorf("%s: %s", ShortKey(key), a.msg)
 				return
 			}
-			panic(r)
+			ie := wrapInternal(r).(*internalErr)
+			err = fmt.Errorf("%s: internal error: %s @ %s", ShortKey(key), ie.msg, ie.where)
 		}
 	}()
 	st := &State{vals: map[ssa.Value]Val{}, heap: map[*Obj]Val{}}
@@ -366,14 +374,39 @@ func (fr *FnRun) oblige(st *State, kind, detail string, goal *Term, clause *Clau
 		}
 	}
 	o.Path = append([]string(nil), st.trace...)
+	facts := st.facts
+	goal, facts = ex.skolemize(goal, facts)
+	o.Goal = goal
 	if goal.IsTrue() {
 		o.Trivial = true
 		ex.Obls = append(ex.Obls, o)
 		return
 	}
-	o.Facts = ex.closeFacts(st.facts, goal)
+	o.Facts = ex.closeFacts(facts, goal)
 	o.Script = Script(o.Facts, goal, ex.UFs, ex.AxiomTs)
 	ex.Obls = append(ex.Obls, o)
+}
+
+// skolemize turns a goal `forall x :: A ==> B` into hypotheses A[sk/x] and goal
+// B[sk/x] with fresh constants, so that a failing quantified goal still gives a
+// model naming the offending index.
+func (ex *Exec) skolemize(goal *Term, facts []*Term) (*Term, []*Term) {
+	for {
+		switch goal.Op {
+		case "forall":
+			m := map[string]*Term{}
+			for _, b := range goal.Bound {
+				m[b.Name] = Var(ex.fresh("sk_"+b.Name), b.Sort)
+			}
+			goal = Subst(goal.Args[0], m)
+			continue
+		case "=>":
+			facts = append(facts[:len(facts):len(facts)], goal.Args[0])
+			goal = goal.Args[1]
+			continue
+		}
+		return goal, facts
+	}
 }
 
 // closeFacts adds the registered range facts of every variable mentioned.
@@ -407,8 +440,21 @@ func (ex *Exec) closeFacts(facts []*Term, goal *Term) []*Term {
 	return out
 }
 
+// Cover is a reachability query: the facts of a path to a return must be
+// satisfiable for at least one return of each verified function (vacuity guard).
+type Cover struct {
+	Func   string
+	Case   string
+	Script string
+	Answer string
+}
+
 // checkPost emits the postcondition obligations at a return.
 func (fr *FnRun) checkPost(st *State, results []Val) {
+	if len(fr.ex.Covers) < 4096 {
+		facts := fr.ex.closeFacts(st.facts, tTrue)
+		fr.ex.Covers = append(fr.ex.Covers, &Cover{Func: fr.key, Case: fr.caseName, Script: Script(facts, nil, fr.ex.UFs, fr.ex.AxiomTs)})
+	}
 	ctr := fr.ctr
 	if ctr == nil && fr.curCase == nil {
 		fr.defaultPost(st, results)
@@ -457,6 +503,7 @@ func (fr *FnRun) checkPost(st *State, results []Val) {
 
 // defaultPost: implicit postconditions every function gets.
 func (fr *FnRun) defaultPost(st *State, results []Val) {
+	fr.checkSticky(st, results)
 }
 
 func conjuncts(t *Term) []*Term {
@@ -481,7 +528,7 @@ func (fr *FnRun) runFrom(st *State, b *ssa.BasicBlock, prev *ssa.BasicBlock, dep
 			if _, ok := r.(pathStop); ok {
 				return
 			}
-			panic(r)
+			panic(wrapInternal(r))
 		}
 	}()
 	fr.runBlock(st, b, prev, depth, k)
@@ -542,7 +589,7 @@ func (fr *FnRun) runRest(st *State, b *ssa.BasicBlock, rest []ssa.Instruction, d
 			if _, ok := r.(pathStop); ok {
 				return
 			}
-			panic(r)
+			panic(wrapInternal(r))
 		}
 	}()
 	for i, in := range rest {
@@ -708,4 +755,39 @@ func (ex *Exec) strConst(s string) *StrV {
 	n := "strlit_" + hashScript(s)
 	ex.UFs[n] = &UFSig{Name: n, Ret: SArrII}
 	return &StrV{Arr: App(n, SArrII), Len: Int(int64(len(s)))}
+}
+
+func firstFrames(s string) string {
+	lines := strings.Split(s, "\n")
+	var out []string
+	seenPanic := false
+	for _, l := range lines {
+		if strings.HasPrefix(l, "panic(") {
+			seenPanic = true
+			continue
+		}
+		if !seenPanic {
+			continue
+		}
+		if strings.Contains(l, "/govc/cmd/govc/") {
+			out = append(out, strings.TrimSpace(l))
+			if len(out) >= 5 {
+				break
+			}
+		}
+	}
+	return strings.Join(out, " <- ")
+}
+
+type internalErr struct{ msg, where string }
+
+// wrapInternal captures the origin of an unexpected panic at the first recover.
+func wrapInternal(r interface{}) interface{} {
+	switch x := r.(type) {
+	case *abortErr, *internalErr, pathStop:
+		return x
+	}
+	buf := make([]byte, 1<<16)
+	n := runtime.Stack(buf, false)
+	return &internalErr{msg: fmt.Sprint(r), where: firstFrames(string(buf[:n]))}
 }
